@@ -102,8 +102,14 @@ def _fresh(n):
 FRESH = [("fresh-shape-%d" % n, _fresh(n)) for n in range(40, 60)]
 
 
+# goroutines started on the reflect call path (variadic / more than 4 parameters) keep the arguments they were started with, whatever calls follow
+GOARGS = [("go-variadic-sum", "out = make(chan interface, 64)\nsend = func(c, v, r...) {\n c <- v\n}\nfor i = 0; i < 64; i++ {\n go send(out, i)\n}\ns = 0\nfor i = 0; i < 64; i++ {\n s += <-out\n}\ns"),
+          ("go-fn5-sum", "out = make(chan interface, 64)\nsend = func(c, v, a, b, d) {\n c <- v + a + b + d\n}\nfor i = 0; i < 64; i++ {\n go send(out, i, 0, 0, 0)\n}\nnop = func(a, b, c, d, e) { return 0 }\nnop(9, 9, 9, 9, 9)\ns = 0\nfor i = 0; i < 64; i++ {\n s += <-out\n}\ns"),
+          ("go-variadic-then-calls", "out = make(chan interface, 8)\nsend = func(c, v, r...) {\n c <- v\n}\nother = func(x, r...) { return x }\ngo send(out, \"A\")\nother(\"B\")\nother(\"C\", 1, 2)\n<-out")]
+
+
 def cases():
-    return ([{"id": "raw-" + n, "src": s, "concfirst": True} for n, s in FRESH] +
+    return ([{"id": "raw-" + n, "src": s, "concfirst": True} for n, s in FRESH] + [{"id": "raw-" + n, "src": s} for n, s in GOARGS] +
             [{"id": "raw-" + n, "src": s} for n, s in RAW] +
             [{"id": "raw-" + n, "src": s, "variants": ["int64", "float64", "string"]} for n, s in VARIANT] +
             [{"id": "raw-envpair-%s-%s" % (n, how), "src": b, "pair": {"s0": s0, "a": a, "how": how}} for n, s0, a, b in ENVPAIRS for how in ("Copy", "DeepCopy")] +
